@@ -108,6 +108,11 @@ def gen_case(rng, *, max_tids=8, backend=None):
     case = dict(be=be, mw=mw, cof=int(rng.random() < 0.8), bust=int(rng.random() < 0.2), ty=ty, mp=mp,
                 ca=ca, fl=fl, kids=kids, shapes=shapes, inst=inst, req=req, pre={}, ctx=ctx,
                 sched=[rng.randrange(1, 8) if rng.random() < 0.85 else 0 for _ in range(rng.randint(0, 3 * n))])
+    # a second run_tasks call on the same task objects and storage
+    if rng.random() < 0.35:
+        case['second'] = dict(req=[rng.randrange(len(inst)) for _ in range(rng.randint(1, 3))],
+                              bust=int(rng.random() < 0.5), ctx=ctx + 3,
+                              sched=[rng.randrange(1, 8) for _ in range(rng.randint(0, n))])
     # pre-cached subset (only cacheable types); mostly the value the task would compute
     if rng.random() < 0.6:
         ref = ref_values(case, ignore_store=True)
@@ -145,9 +150,14 @@ def encode(case):
     inst = ';'.join(f'{t}:{lst(ch)}' for t, ch in case['inst'])
     pre = ','.join(f'{t}:{v}' for t, v in sorted(case['pre'].items()))
     sched = case['sched'] + [ALL] * (len(case['ty']) + 3)
+    second = ''
+    if case.get('second'):
+        s2 = case['second']
+        second = (f" req2={lst(s2['req'])} bust2={s2['bust']} ctx2={s2['ctx']} "
+                  f"sched2={lst(s2['sched'] + [ALL] * (len(case['ty']) + 3))}")
     return (f"RUN be={case['be']} mw={mw} cof={case['cof']} bust={case['bust']} ty={lst(case['ty'])} "
             f"mp={','.join('-' if x is None else str(x) for x in case['mp'])} ca={lst(case['ca'])} "
-            f"fl={lst(case['fl'])} inst={inst} req={lst(case['req'])} pre={pre} sched={lst(sched)} ctx={case['ctx']}")
+            f"fl={lst(case['fl'])} inst={inst} req={lst(case['req'])} pre={pre} sched={lst(sched)} ctx={case['ctx']}" + second)
 
 
 # ------------------------------------------------------------------ building the real objects
@@ -233,7 +243,11 @@ class Spy:
         if self.waits > self.max_waits:
             raise HarnessHang('coordinator keeps polling: %d waits' % self.waits)
         q, r, fids = self._queued_running()
-        self.events.append(('W', q, r))
+        alive = len(r)
+        if self.kind != 'serial':
+            ex = self.inner.executor
+            alive = sum(1 for f in fids if ex._running_id_to_future_and_process[f][1].is_alive())
+        self.events.append(('W', q, r, alive))
         choice = self.sched.pop(0) if self.sched else ALL
         if self.kind == 'serial':
             if q:
@@ -278,8 +292,17 @@ def lst(l):
     return ','.join(str(x) for x in l)
 
 
+def phases_of(case):
+    """a case is one run_tasks call, optionally followed by a second one on the SAME task objects and
+    storage (another Lab: other context, request list, bust flag, schedule)"""
+    ph = [dict(req=case['req'], bust=case['bust'], ctx=case['ctx'], sched=case['sched'])]
+    if case.get('second'):
+        ph.append(case['second'])
+    return ph
+
+
 def run_real(case, workdir):
-    """run the case on the real code; returns (observation string, raw record for monitors)"""
+    """run the case on the real code; returns (observation string, list of per-phase records)"""
     labtech.logger.setLevel(logging.CRITICAL)
     n = len(case['ty'])
     configure_types(case)
@@ -288,97 +311,110 @@ def run_real(case, workdir):
     storage_dir = os.path.join(workdir, 'store')
     shutil.rmtree(storage_dir, ignore_errors=True)
     exec_log = os.path.join(workdir, 'exec.log')
-    if os.path.exists(exec_log):
-        os.unlink(exec_log)
-    dagtasks.EXEC_LOG = exec_log
-    events = []
     be = case['be']
     die = {t for t in range(n) if case['fl'][t] & 2}
-    if be != 'serial':
-        fakeproc.install(be, die, events)
-    backend = SpyBackend(be, case['sched'], events, max_waits=len(case['sched']) + n + 6)
-    L.TaskState = RecordingTaskState
-    RecordingTaskState.last = None
+    first = {}
+    for i, o in enumerate(objs):
+        first.setdefault(o.k, o)
+    obs_all, recs = [], []
+    store_before = dict(case['pre'])
+    marked_before = []
     try:
-        lab = labtech.Lab(storage=storage_dir, runner_backend=backend, max_workers=case['mw'],
-                          continue_on_failure=bool(case['cof']), context={'c': case['ctx']})
-        # pre-populate the cache
-        first = {}
-        for i, o in enumerate(objs):
-            first.setdefault(o.k, o)
-        for t, v in case['pre'].items():
-            o = first.get(t)
-            if o is None:
-                continue
-            o._lt.cache.save(lab._storage, o, TaskResult(value=v, meta=ResultMeta(
-                start=datetime(2020, 1, 1, 0, 0, t % 60), duration=timedelta(seconds=t))))
-        req = [objs[i] for i in case['req']]
-        status = None
-        returned = None
-        try:
-            returned = lab.run_tasks(req, bust_cache=bool(case['bust']), disable_progress=True, disable_top=True)
-            status = 'returned ' + ','.join(f'{t.k}:{v}' for t, v in returned.items())
-        except LabError as e:
-            status = f'raised LabError {backend.spy.last_yield if backend.spy else None}'
-        except KeyError:
-            status = 'raised KeyError'
-        except HarnessHang as e:
-            status = 'HANG ' + str(e)
-        except BaseException as e:
-            status = 'raised ' + type(e).__name__ + ' ' + str(e)[:80]
-        st = RecordingTaskState.last
-        spy = backend.spy
-        inner = spy.inner if spy else None
-        # canonical observation
-        parts = []
-        plan = getattr(st, 'plan', None)
-        if plan is not None:
-            parts.append('P pending=%s deps=%s inst=%s' % (
-                lst(plan['pending']),
-                ';'.join(lst(plan['deps'].get(t, [])) for t in range(n)),
-                ';'.join(lst(iid_of[x] for x in plan['inst'].get(t, [])) for t in range(n))))
-        for e in events:
-            if e[0] == 'S':
-                parts.append(f'S {e[1]} {e[2]}')
-            elif e[0] == 'B':
-                parts.append('B %d' % e[1])
-            elif e[0] == 'W':
-                parts.append(f'W q={lst(e[1])} r={lst(e[2])}')
-            elif e[0] == 'Y':
-                parts.append(f'Y {e[1]} {e[2]}')
-            elif e[0] == 'R':
-                parts.append(f'R rem={lst(e[1])} left={lst(e[2])}')
-        parts.append('status=' + status)
-        execs = []
-        if os.path.exists(exec_log):
-            execs = sorted(l.rstrip('\n') for l in open(exec_log))
-        inflight = set()
-        if inner is not None:
-            if be == 'serial':
-                inflight = {s.task.k for s in inner.task_submissions}
-            else:
-                inflight = {t.k for t in inner.future_to_task.values()}
-        # workers still in flight when run_tasks ended are not part of the observation
-        parts.append('execs=' + '/'.join(x for x in execs if int(x.split()[1]) not in inflight))
-        store = {}
-        for t, o in sorted(first.items()):
-            if t in inflight:
-                continue
-            if lab.is_cached(o):
-                store[t] = o._lt.cache.load_result_with_meta(lab._storage, o).value
-        parts.append('store=' + ','.join(f'{t}:{v}' for t, v in sorted(store.items())))
-        marked = sorted(i for i, o in enumerate(objs) if o.result_meta is not None)
-        parts.append('marked=' + lst(marked))
-        parts.append('results=' + (lst(sorted(t.k for t in inner.results_map)) if inner is not None else ''))
-        parts.append('pending=' + (lst(t.k for t in st.pending_tasks) if st is not None else ''))
-        parts.append('active=' + (lst(sorted(t.k for ts in st.type_to_active_tasks.values() for t in ts))
-                                  if st is not None else ''))
-        record = dict(events=events, status=status, returned=returned, execs=execs, store=store, marked=marked,
-                      plan=plan, objs=objs, inflight=inflight,
-                      terminated=[t.k for t in fakeproc.CTL.terminated] if be != 'serial' else [])
-        return '; '.join(parts), record
+        for pi, ph in enumerate(phases_of(case)):
+            if os.path.exists(exec_log):
+                os.unlink(exec_log)
+            dagtasks.EXEC_LOG = exec_log
+            events = []
+            if be != 'serial':
+                fakeproc.install(be, die, events)
+            backend = SpyBackend(be, ph['sched'], events, max_waits=len(ph['sched']) + n + 6)
+            L.TaskState = RecordingTaskState
+            RecordingTaskState.last = None
+            lab = labtech.Lab(storage=storage_dir, runner_backend=backend, max_workers=case['mw'],
+                              continue_on_failure=bool(case['cof']), context={'c': ph['ctx']})
+            if pi == 0:
+                # pre-populate the cache
+                for t, v in case['pre'].items():
+                    o = first.get(t)
+                    if o is None:
+                        continue
+                    o._lt.cache.save(lab._storage, o, TaskResult(value=v, meta=ResultMeta(
+                        start=datetime(2020, 1, 1, 0, 0, t % 60), duration=timedelta(seconds=t))))
+            req = [objs[i] for i in ph['req']]
+            status = None
+            returned = None
+            try:
+                returned = lab.run_tasks(req, bust_cache=bool(ph['bust']), disable_progress=True, disable_top=True)
+                status = 'returned ' + ','.join(f'{t.k}:{v}' for t, v in returned.items())
+            except LabError as e:
+                status = f'raised LabError {backend.spy.last_yield if backend.spy else None}'
+            except KeyError:
+                status = 'raised KeyError'
+            except HarnessHang as e:
+                status = 'HANG ' + str(e)
+            except BaseException as e:
+                status = 'raised ' + type(e).__name__ + ' ' + str(e)[:80]
+            st = RecordingTaskState.last
+            spy = backend.spy
+            inner = spy.inner if spy else None
+            # canonical observation
+            parts = []
+            plan = getattr(st, 'plan', None)
+            if plan is not None:
+                parts.append('P pending=%s deps=%s inst=%s' % (
+                    lst(plan['pending']),
+                    ';'.join(lst(plan['deps'].get(t, [])) for t in range(n)),
+                    ';'.join(lst(iid_of[x] for x in plan['inst'].get(t, [])) for t in range(n))))
+            for e in events:
+                if e[0] == 'S':
+                    parts.append(f'S {e[1]} {e[2]}')
+                elif e[0] == 'B':
+                    parts.append('B %d' % e[1])
+                elif e[0] == 'W':
+                    parts.append(f'W q={lst(e[1])} r={lst(e[2])}')
+                elif e[0] == 'Y':
+                    parts.append(f'Y {e[1]} {e[2]}')
+                elif e[0] == 'R':
+                    parts.append(f'R rem={lst(e[1])} left={lst(e[2])}')
+            parts.append('status=' + status)
+            execs = []
+            if os.path.exists(exec_log):
+                execs = sorted(l.rstrip('\n') for l in open(exec_log))
+            inflight = set()
+            if inner is not None:
+                if be == 'serial':
+                    inflight = {s.task.k for s in inner.task_submissions}
+                else:
+                    inflight = {t.k for t in inner.future_to_task.values()}
+            # workers still in flight when run_tasks ended are not part of the observation
+            parts.append('execs=' + '/'.join(x for x in execs if int(x.split()[1]) not in inflight))
+            store = {}
+            for t, o in sorted(first.items()):
+                if t in inflight:
+                    continue
+                if lab.is_cached(o):
+                    store[t] = o._lt.cache.load_result_with_meta(lab._storage, o).value
+            parts.append('store=' + ','.join(f'{t}:{v}' for t, v in sorted(store.items())))
+            marked = sorted(i for i, o in enumerate(objs) if o.result_meta is not None)
+            parts.append('marked=' + lst(marked))
+            parts.append('results=' + (lst(sorted(t.k for t in inner.results_map)) if inner is not None else ''))
+            parts.append('pending=' + (lst(t.k for t in st.pending_tasks) if st is not None else ''))
+            parts.append('active=' + (lst(sorted(t.k for ts in st.type_to_active_tasks.values() for t in ts))
+                                      if st is not None else ''))
+            recs.append(dict(events=events, status=status, returned=returned, execs=execs, store=store, marked=marked,
+                             plan=plan, objs=objs, inflight=inflight, phase=pi, store_before=store_before,
+                             marked_before=marked_before,
+                             terminated=[t.k for t in fakeproc.CTL.terminated] if be != 'serial' else []))
+            obs_all.append('; '.join(parts))
+            if be != 'serial':
+                fakeproc.uninstall()
+            store_before = dict(store)
+            marked_before = list(marked)
+            if not status.startswith('returned'):
+                break
+        return ' || '.join(obs_all), recs
     finally:
-        if be != 'serial':
+        if be != 'serial' and fakeproc.CTL is not None:
             fakeproc.uninstall()
         L.TaskState = RecordingTaskState.__mro__[1]
         dagtasks.EXEC_LOG = None
